@@ -13,7 +13,8 @@ from .edit import concrete
 UNENC = object()
 
 
-def _role_fn(meta_path, extra=None):
+def _role_fn(meta_path, extra=None, alias=None):
+    """alias: the file a symbolic link at the metafile path points to - the same file for a reader of M"""
     d = os.path.dirname(meta_path)
     temps = {}
 
@@ -23,7 +24,7 @@ def _role_fn(meta_path, extra=None):
         ap = os.path.abspath(p)
         if extra and ap in extra:
             return extra[ap]
-        if ap == os.path.abspath(meta_path):
+        if ap == os.path.abspath(meta_path) or (alias and ap == alias):
             return "M"
         if os.path.dirname(ap) == d:
             return temps.setdefault(ap, "T%d" % (len(temps) + 1))
@@ -169,13 +170,20 @@ def run_editfault(case):
         run = [0]
 
         mname = case.get("meta_name", "m.torrent")
+        alias = [None]
 
         def one(plan):
             run[0] += 1
             d = os.path.join(other or sbx, "r%d" % run[0])
             os.makedirs(d)
             out = os.path.join(d, mname)
-            shutil.copyfile(base, out)
+            if case.get("meta_symlink"):      # the metafile path is a symbolic link to the file kept elsewhere
+                os.makedirs(os.path.join(sbx, "store%d" % run[0]))
+                alias[0] = os.path.join(sbx, "store%d" % run[0], "kept.torrent")
+                shutil.copyfile(base, alias[0])
+                os.symlink(alias[0], out)
+            else:
+                shutil.copyfile(base, out)
             status, log = _traced_child(entry, req, out, plan, os.path.join(sbx, "log%d.json" % run[0]),
                                         [sbx] + ([other] if other else []))
             return status, log, out
@@ -185,7 +193,7 @@ def run_editfault(case):
         if status == "ok":
             with open(out, "rb") as fh:
                 new = fh.read()
-        role = _role_fn(out)
+        role = _role_fn(out, alias=alias[0])
         ref_ops = _abstract_ops(log["log"], role, new)
         # label what each write wrote: re-run once more un-faulted is unnecessary - sizes identify it
         for o in ref_ops:
@@ -206,7 +214,7 @@ def run_editfault(case):
                 k += 1
                 plan = {"at": at, "kind": kind, "k": 1}
                 status, log, out = one(plan)
-                role = _role_fn(out)
+                role = _role_fn(out, alias=alias[0])
                 ops = _abstract_ops(log["log"], role, new)
                 for o in ops:
                     if o["kind"] in ("write", "dwrite"):
@@ -215,7 +223,7 @@ def run_editfault(case):
                              "fault": {"at": min(at, len(ops)) if ops else 0, "kind": kind, "k": 1},
                              "status": status, "final": _classify(out, old, new), "encodable": encodable,
                              "entry": entry, "nops_ref": nops, "same": new == old, "init": []})
-                if kind in ("crash", "torncrash") and case.get("followup", True):
+                if kind in ("crash", "torncrash") and case.get("followup", True) and not case.get("meta_symlink"):
                     k += 1
                     recs.append(_followup(case, rid + k, out, sbx, run))
         return recs
